@@ -103,7 +103,7 @@ TECH['C10'] = 'contract-based deductive verification (Verus, Z3) of Env::errexit
 
 LEVEL_TEXT['C09'] = 'Kernel only. Unbounded deductive proof (Verus) on the real perform / RedirGuard code, against an assumed model of the descriptor table: a redirection saves the target in a close-on-exec descriptor >= 10, changes the target only, refuses targets the shell reserves, and leaves the table unchanged on every failure; the guard restores exactly the initial table (undo_redirs, Drop) for any number of redirections, or closes every backing copy (preserve_redirs). Each operator opens its file with the access mode and flags of XCU 2.7, noclobber never truncates or hands out an existing regular file, <& / >& only name suitable open descriptors, and every opener leaves nothing open on failure. Three callers of the guard (execute_function, execute_external_utility, FullCompoundCommand::execute) perform the redirections first, keep them in effect exactly while assignments and command run, and do nothing more after a failed one. The expansion of operands and the other uses of the guard are assumed or not decided; level other because the claim is a kernel over a model of the OS side.'
 NOTE['C09'] = 'Kernel only. Trusted: Verus/Z3; the descriptor-table model of Close/Dup/Fcntl; assumed contracts for expansion and for writing the here-document body; await points dropped; loops over drain() checked in an equivalent form; in unit funcall RAII of the guard assumed as a whole. Not covered: here-document content, the callers of RedirGuard other than execute_function / execute_external_utility / FullCompoundCommand::execute, VirtualSystem.'
-TECH['C09'] = 'contract-based deductive verification (Verus, Z3) of perform / replace_target / RedirGuard::{new, perform_redir, undo_redirs, preserve_redirs, drop}, the openers (open_normal, open_file, open_file_noclobber, copy_fd, here_doc::open_fd) and move_fd_internal against a ghost descriptor table, and of three callers of the guard (execute_function, execute_external_utility, FullCompoundCommand::execute) against a ghost monitor'
+TECH['C09'] = 'contract-based deductive verification (Verus, Z3) of perform / replace_target / RedirGuard::{new, perform_redir, perform_redirs, undo_redirs, preserve_redirs, drop}, the openers (open_normal, open_file, open_file_noclobber, copy_fd, here_doc::open_fd) and move_fd_internal against a ghost descriptor table, and of three callers of the guard (execute_function, execute_external_utility, FullCompoundCommand::execute) against a ghost monitor'
 
 LEVEL_TEXT['C18'] = 'Kernel only. Unbounded deductive proof (Verus) on the real FdReader2::next_line against an assumed model of read(2): each read asks for one byte, the bytes consumed from the descriptor are exactly the returned line, ending at the first newline, on success and on error; nothing that follows the line is taken from the input; bounded Kani check that read_char of the read built-in decodes and consumes exactly one character under every chunking of the reads. The lexer / read-eval-loop half of the property (a new line is requested only when needed, each command runs before the next is read) is async interpreter code and is not decided; level other because the claim is a kernel over a model of the OS side.'
 NOTE['C18'] = 'Kernel only (the line reader). Trusted: Verus/Z3; the synchronous model of Read; assumed contract of slice::from_mut; await points dropped; text conversion uninterpreted. Kani part bounded (read_char: inputs <= 4 bytes, every chunking). Not covered: lexer buffer management, runner, Memory / Echo / prompt decorators, cross-process sharing of the descriptor, the backslash processing of read().'
